@@ -4,11 +4,12 @@ Require Extraction.
 Require Import ExtrOcamlBasic ExtrOcamlZBigInt ExtrOcamlNatBigInt.
 From LZ4V Require Import Spec.BlockSpec Spec.BlockFast.
 From LZ4V Require Import Model.DecSem.
-From LZ4V Require Import Gen.Consts Model.Mem Model.Dec Model.DecApi Model.DecStream Model.DecFast.
+From LZ4V Require Import Gen.Consts Model.Mem Model.Dec Model.DecApi Model.DecStream Model.DecFast Model.DecInplace.
 Extraction Language OCaml.
 Extraction "lz4v.ml"
   spec_decode_fast strict_valid_fast
   mem_of_list store_list load_list get dec_generic decompress_usingDict
   setStreamDecode decompress_safe_continue
   decompress_fast_usingDict decompress_fast_continue
-  specified_output.
+  specified_output
+  decompress_safe_inplace.
